@@ -38,7 +38,7 @@ CONSTANTS NC,          \* callers 1..NC
           MaxErr,      \* bound of the model: error-with-retry outcomes per call
           Secondaries, \* subset of {"none", "consul", "memberlist"}: "none" = no MultiClient, otherwise
                        \* a MultiClient mirrors every successful CAS into a second store of that kind
-          WithDelete,  \* TRUE: a Delete action exists (outside C07's quantifier, see MC_aba)
+          WithDelete,  \* TRUE: a Delete action exists (outside C07: documentation configs)
           Emit         \* TRUE: print one behaviour per transition (gen/replay binding)
 
 ASSUME Backends \subseteq {"consul", "etcd", "memberlist"} /\ Secondaries \subseteq {"none", "consul", "memberlist"}
